@@ -1181,16 +1181,22 @@ func emitTranslated(p *pkgInfo) (out string, err error) {
 	b.WriteString(safe("checkFailFile", func() string { return t.impFunctionMode("checkFailFile", csigs, true, "") }))
 	b.WriteString("\n")
 	b.WriteString(safe("doCheck", func() string { return t.impFunctionMode("doCheck", csigs, true, "") }))
+	b.WriteString("\n")
+	b.WriteString("/-! ### shrink.go: `shrinker.accept`, in `Go.CM` with the shrinker's own state (current test case, error, cache, counters) as variables -/\n\n")
+	asigs := map[string]*isig{"compareData": isigs["compareData"]}
+	b.WriteString(safe("shrinker.accept", func() string { return t.impFunctionMode("shrinker.accept", asigs, true, "C") }))
 	emMode, ckMode = false, false
 	b.WriteString("\n")
 	b.WriteString("/-! ### engine.go: the bytes of a fuzz input as 64-bit words (`checkFuzz`) -/\n\n")
-	b.WriteString(safe("checkFuzz", func() string { return t.impFragment("checkFuzz", "checkFuzz_words", func(i int, s ast.Stmt) bool {
-		if ds, ok := s.(*ast.DeclStmt); ok {
-			return strings.Contains(exprText(p.fset, ds.Decl.(*ast.GenDecl).Specs[0].(*ast.ValueSpec).Names[0]), "buf")
-		}
-		_, isFor := s.(*ast.ForStmt)
-		return isFor
-	}, [][2]string{{"input", "[]u8"}}, "buf", "[]u64", "the statements that turn `input` into the buffer `buf` of the bit stream") }))
+	b.WriteString(safe("checkFuzz", func() string {
+		return t.impFragment("checkFuzz", "checkFuzz_words", func(i int, s ast.Stmt) bool {
+			if ds, ok := s.(*ast.DeclStmt); ok {
+				return strings.Contains(exprText(p.fset, ds.Decl.(*ast.GenDecl).Specs[0].(*ast.ValueSpec).Names[0]), "buf")
+			}
+			_, isFor := s.(*ast.ForStmt)
+			return isFor
+		}, [][2]string{{"input", "[]u8"}}, "buf", "[]u64", "the statements that turn `input` into the buffer `buf` of the bit stream")
+	}))
 	b.WriteString("\n")
 	b.WriteString("/-! ### utils.go: `repeat.more`, in `Go.StM` (groups that are opened by one call and closed by the next) -/\n\n")
 	stMode = true
